@@ -138,6 +138,9 @@ def gen(rng, knobs=None):
             for b, p in enumerate(free[:rng.choice([0, 0, 1, 2, 3])]):
                 p["this"] = t["name"]
                 t["bound"].append((f"{t['name']}_b{b}", p["name"]))
+            if rng.random() < 0.15:
+                t["deferred"] = [(f"{t['name']}_d", f"absif{i}")]
+                m["absif"] = (f"absif{i}", t["name"])
             if len(t["bound"]) >= 2 and rng.random() < 0.6:
                 t["generics"].append((f"{t['name']}_g", [b for b, _ in t["bound"][:2]]))
             elif len(t["bound"]) >= 1 and rng.random() < 0.3:
@@ -145,7 +148,8 @@ def gen(rng, knobs=None):
         # calls through objects
         for p in m["procs"]:
             for t in m["types"]:
-                names = [b for b, _ in t["bound"]] + [g for g, _ in t["generics"]]
+                names = [b for b, _ in t["bound"]] + [g for g, _ in t["generics"]] + \
+                        [b for b, _ in t.get("deferred", [])]
                 if names and rng.random() < 0.35:
                     p["obj_calls"].append((t["name"], rng.choice(names)))
         # generic interfaces over module procedures
@@ -177,6 +181,9 @@ def gen(rng, knobs=None):
             if rng.random() < 0.3:      # a sibling branch
                 units.append(dict(kind="submodule", name=f"s{i}_x", ancestor=m["name"], parent=None, impl=[],
                                   uses=[], meta=[], impl_style="subroutine", calls=[]))
+    if rng.random() < 0.06:
+        units.append(dict(kind="submodule", name="s_orphan", ancestor="nomod", parent=None, impl=[], uses=[],
+                          meta=[], impl_style="subroutine", calls=[]))
     # programs, external procedures, block data
     for q in range(rng.choice([0, 1, 1, 2])):
         uses = sorted({f"m{rng.randrange(nm)}" for _ in range(rng.choice([0, 1, 2]))})
@@ -263,6 +270,8 @@ def render_unit(u):
                 o.append("  public :: " + ", ".join(u["public"]))
         for t in u["types"]:
             ext = f", extends({t['extends']})" if t["extends"] else ""
+            if t.get("deferred"):
+                ext += ", abstract"
             o.append(f"  type{ext} :: {t['name']}")
             o += doc(t["meta"], "    ")
             for vt, proto, name in t["comps"]:
@@ -270,8 +279,10 @@ def render_unit(u):
                     o.append(f"    {vt} :: {name}")
                 else:
                     o.append(f"    {vt}({proto}), pointer :: {name}")
-            if t["bound"] or t["generics"]:
+            if t["bound"] or t["generics"] or t.get("deferred"):
                 o.append("  contains")
+                for b, ifc in t.get("deferred", []):
+                    o.append(f"    procedure({ifc}), deferred :: {b}")
                 for b, p in t["bound"]:
                     o.append(f"    procedure :: {b} => {p}")
                 for g, bs in t["generics"]:
@@ -281,6 +292,10 @@ def render_unit(u):
             o.append(f"  interface {g}")
             o.append("    module procedure " + ", ".join(ps))
             o.append(f"  end interface {g}")
+        if u.get("absif"):
+            ifc, tn = u["absif"]
+            o += ["  abstract interface", f"    subroutine {ifc}(this)", f"      import {tn}",
+                  f"      class({tn}) :: this", f"    end subroutine {ifc}", "  end interface"]
         if u["extifs"] or u["mpis"]:
             o.append("  interface")
             for x in u["extifs"]:
